@@ -244,6 +244,7 @@ func c14Scenarios() []c14Scenario {
 		mkReserve("S10-reserve-vs-ask-removal"),
 		mkPreempt("S4-preemption-release-rest"),
 		mkPreempt5("S13-multi-victim-preemption-release"),
+		mkPreemptPH("S14-placeholder-victims-vs-timeout"),
 		mk("S11-rejected-application-rest", setup, o("APP_ADD", "bad"), o("REST"), o("SCHEDULE")),
 		mk("S12-reload-dynamic-queue-cleanup", setup, []world.Op{{K: "CONFIG", N: 1}}, o("APP_ADD", "app3"), o("CLEAN_QUEUES")),
 	}
@@ -269,6 +270,13 @@ func mkPreempt5(name string) c14Scenario {
 	s := scnPreemptG5("c14-" + name)
 	s.Prefix = append(s.Prefix, op("ASK", "a2"))
 	return c14Scenario{Name: name, Scn: s, Threads: [][]world.Op{{op("SCHEDULE")}, {op("RELEASE", "b3")}, {op("RELEASE", "b1")}}}
+}
+
+// a preemption whose victims are placeholders || the placeholder timeout of their application || REST reads
+func mkPreemptPH(name string) c14Scenario {
+	s := scnPreemptPH("c14-" + name)
+	s.Prefix = append(s.Prefix, op("ASK", "a2"))
+	return c14Scenario{Name: name, Scn: s, Threads: [][]world.Op{{op("SCHEDULE")}, {op("TIMER_PH", "appb")}, {op("REST")}}}
 }
 
 type c14Run struct {
@@ -458,6 +466,11 @@ func c14Exec(sc c14Scenario, prefix []int) (*ilv.Result, string, []mc.Violation,
 }
 
 func c14Shard(tier string, shard, n int) *CustomResult {
+	return c14ShardSel(tier, shard, n, nil)
+}
+
+// c14ShardSel explores the scenarios selected by sel (nil = all)
+func c14ShardSel(tier string, shard, n int, sel func(name string) bool) *CustomResult {
 	run := &c14Run{outcomes: map[string]bool{}, fpSeen: map[string]int{}, complete: true, perScenario: map[string]int{}}
 	bound := 1
 	budget := 160 * time.Second
@@ -467,9 +480,15 @@ func c14Shard(tier string, shard, n int) *CustomResult {
 	}
 	only := os.Getenv("C14_ONLY")
 	scs := c14Scenarios()
-	per := budget / time.Duration(len(scs))
+	nsel := 0
 	for _, sc := range scs {
-		if only != "" && !strings.Contains(sc.Name, only) {
+		if sel == nil || sel(sc.Name) {
+			nsel++
+		}
+	}
+	per := budget / time.Duration(nsel)
+	for _, sc := range scs {
+		if only != "" && !strings.Contains(sc.Name, only) || sel != nil && !sel(sc.Name) {
 			continue
 		}
 		if run.tainted {
@@ -593,6 +612,11 @@ func replayC14(fp string, raw interface{}) int {
 	if err := json.Unmarshal(b, &rp); err != nil {
 		fmt.Println("unreadable replay:", err)
 		return 2
+	}
+	runtime.GOMAXPROCS(1) // as in the exploring workers (see DESIGN.md, E2)
+	world.SetMapMode(1)
+	if strings.HasPrefix(fp, "C07:") {
+		fp = "C14:" + strings.TrimPrefix(fp, "C07:") // the C07 check reports the announcement rules of the same executions
 	}
 	for _, sc := range c14Scenarios() {
 		if sc.Name != rp.Scenario {
